@@ -5,6 +5,8 @@ package main
 import (
 	"encoding/json"
 	"fmt"
+	"io"
+	"log/slog"
 	"os"
 	"os/exec"
 	"path/filepath"
@@ -86,6 +88,14 @@ func main() {
 		// the window in which lazily initialised state can be caught half-built is a
 		// microsecond at the start of a process: give it more processes
 		freshProcesses(c, c.Pick(24, 200))
+	}
+	// the process-wide default logger is the embedding program's business: in a third
+	// of the processes it is a structured logger that records everything, down to
+	// levels below Debug (into the void), so that whatever the code under test logs
+	// lazily is really formatted
+	if c.Batch%3 == 2 || rc != nil { // (and in replays: the case may come from such a process)
+		slog.SetDefault(slog.New(slog.NewTextHandler(io.Discard, &slog.HandlerOptions{Level: slog.LevelDebug - 8})))
+		c.Count("processes_whose_default_logger_records_everything", 1)
 	}
 	selfTest(c)
 	m(c, rc)
@@ -338,6 +348,18 @@ func waitOrHangX(done <-chan struct{}, max time.Duration, what string, goneCount
 		if time.Now().After(deadline) {
 			hangExit(what, "busy", dump)
 		}
+	}
+}
+
+// endless ends the process with the verdict "circling" when a stream handler has
+// delivered far more messages than its input has bytes: every delivery takes at
+// least one byte of input with it, so such a handler is going round in circles and
+// will never close its output.  (The count is the monitor's own; no clock is involved.)
+func endless(delivered, inputBytes int, what string) {
+	if delivered > 2*inputBytes+64 {
+		buf := make([]byte, 1<<20)
+		n := runtime.Stack(buf, true)
+		hangExit(fmt.Sprintf("%s: %d messages delivered for an input of %d bytes", what, delivered, inputBytes), "circling", string(buf[:n]))
 	}
 }
 
